@@ -57,8 +57,7 @@ theorem mem_advertised_iff (C : RpcClass) (n : Name) : n ∈ advertised C ↔ is
     | none => rw [hr] at h; cases h
     | some k => exact mem_keys_of_resolve_some C.mro n k hr
 
-theorem instLookup_of_unknown (C : RpcClass) (n : Name) (hn : n ∉ allNames C) :
-    instLookup C n = if C.getattrHook then .hook else .absent := by
+theorem instLookup_of_unknown (C : RpcClass) (n : Name) (hn : n ∉ allNames C) : instLookup C n = .absent := by
   simp only [allNames, List.mem_append, not_or] at hn
   have h1 : resolve C.mro n = none := resolve_none_of_not_mem C.mro n hn.1
   have h2 : lookup C.inst n = none := lookup_none_of_not_mem C.inst n hn.2
@@ -68,6 +67,21 @@ theorem isAdvertised_of_unknown (C : RpcClass) (n : Name) (hn : n ∉ allNames C
   simp only [allNames, List.mem_append, not_or] at hn
   simp only [isAdvertised, resolve_none_of_not_mem C.mro n hn.1]
 
+/-- the static lookup fails only for names that are no class member -/
+theorem resolve_none_of_instLookup_absent (C : RpcClass) (n : Name) (hg : instLookup C n = .absent) :
+    resolve C.mro n = none := by
+  cases hr : resolve C.mro n with
+  | none => rfl
+  | some k =>
+    cases k <;> (cases hl : lookup C.inst n <;> simp [instLookup, hr, hl] at hg)
+
+/-- without an instance attribute of that name the dispatch test *is* the descriptor's test -/
+theorem instLookup_of_unshadowed (C : RpcClass) (n : Name) (hl : lookup C.inst n = none) :
+    instLookup C n = .absent ∧ isAdvertised C n = false ∨ instLookup C n = .value (isAdvertised C n) := by
+  cases hr : resolve C.mro n with
+  | none => left; simp [instLookup, isAdvertised, hr, hl]
+  | some k => right; cases k <;> simp [instLookup, isAdvertised, isRpcMember, hr, hl]
+
 theorem propertyAt_of_nameOk (C : RpcClass) (n : Name) (h : nameOk C n = true) : PropertyAt C n := by
   unfold PropertyAt
   rw [mem_advertised_iff]
@@ -75,16 +89,9 @@ theorem propertyAt_of_nameOk (C : RpcClass) (n : Name) (h : nameOk C n = true) :
   unfold invokable effects reply
   cases hg : instLookup C n with
   | absent =>
-    have hr : resolve C.mro n = none := by
-      unfold instLookup at hg
-      cases hr : resolve C.mro n with
-      | none => rfl
-      | some k =>
-        cases k <;> (cases hl : lookup C.inst n <;> simp [hr, hl] at hg)
+    have hr := resolve_none_of_instLookup_absent C n hg
     have ha : isAdvertised C n = false := by simp only [isAdvertised, hr]
     simp [ha]
-  | hook => rw [hg] at h; cases h
-  | getter => rw [hg] at h; cases h
   | value m =>
     rw [hg] at h
     simp only [Bool.and_eq_true, beq_iff_eq, Bool.or_eq_true, Bool.not_eq_true', Option.isNone_iff_eq_none] at h
@@ -104,14 +111,6 @@ theorem nameOk_of_propertyAt (C : RpcClass) (n : Name) (h : PropertyAt C n) :
   unfold nameOk
   cases hg : instLookup C n with
   | absent => rfl
-  | hook =>
-    rw [hg] at h
-    have := (h.2.2 (by simp)).1
-    cases this
-  | getter =>
-    rw [hg] at h
-    have := (h.2.2 (by simp)).1
-    cases this
   | value m =>
     rw [hg] at h
     cases m with
@@ -127,14 +126,9 @@ theorem nameOk_of_wfExcept (C : RpcClass) (bad : List Name) (h : WellFormedExcep
     (hn : n ∈ allNames C) (hb : n ∉ bad) : nameOk C n = true := by
   unfold WellFormedExcept wfExceptB at h
   simp only [Bool.and_eq_true, List.all_eq_true, Bool.or_eq_true] at h
-  rcases h.1.2 n hn with hc | hk
+  rcases h.1 n hn with hc | hk
   · exact absurd (List.contains_iff_mem.mp hc) hb
   · exact hk
-
-theorem hook_of_wfExcept (C : RpcClass) (bad : List Name) (h : WellFormedExcept C bad) : C.getattrHook = false := by
-  unfold WellFormedExcept wfExceptB at h
-  simp only [Bool.and_eq_true, Bool.not_eq_true'] at h
-  exact h.1.1
 
 theorem mem_of_lookup_some {β : Type} (t : List (Name × β)) (n : Name) (v : β) (h : lookup t n = some v) :
     (n, v) ∈ t := by
@@ -208,7 +202,7 @@ theorem instClean_mem (C : RpcClass) (bad : List Name) (l : List (Name × Bool))
       · exact Or.inr hc
     · exact ih h.2 e
 
-theorem nameOk_of_clean (C : RpcClass) (n : Name) (hh : C.getattrHook = false) (hc : C.classMarked = false)
+theorem nameOk_of_clean (C : RpcClass) (n : Name)
     (hk : ∀ k, resolve C.mro n = some k → cleanKind k = true)
     (hi : ∀ m, lookup C.inst n = some m → m = false ∧ isAdvertised C n = false) : nameOk C n = true := by
   cases hl : lookup C.inst n with
@@ -217,15 +211,21 @@ theorem nameOk_of_clean (C : RpcClass) (n : Name) (hh : C.getattrHook = false) (
     subst hm
     cases hr : resolve C.mro n with
     | none => simp [nameOk, instLookup, hr, hl, ha]
-    | some k =>
-      have hck := hk k hr
-      cases k <;> simp [cleanKind] at hck <;> simp [nameOk, instLookup, hr, hl, ha]
+    | some k => cases k <;> simp [nameOk, instLookup, hr, hl, ha]
   | none =>
     cases hr : resolve C.mro n with
-    | none => simp [nameOk, instLookup, hr, hl, hh]
+    | none => simp [nameOk, instLookup, hr, hl]
     | some k =>
       have hck := hk k hr
       cases k <;> simp [cleanKind] at hck <;>
-        simp [nameOk, instLookup, isAdvertised, isRpcMember, declared, hr, hl, hc, hck]
+        simp [nameOk, instLookup, isAdvertised, isRpcMember, declared, hr, hl, hck]
+
+/-- every name is either member of the tables / the instance dict, or unknown to the object -/
+theorem propertyAt_of_wfExcept (C : RpcClass) (bad : List Name) (h : WellFormedExcept C bad) (n : Name)
+    (hb : n ∉ bad) : PropertyAt C n := by
+  by_cases hn : n ∈ allNames C
+  · exact propertyAt_of_nameOk C n (nameOk_of_wfExcept C bad h n hn hb)
+  · apply propertyAt_of_nameOk
+    simp only [nameOk, instLookup_of_unknown C n hn]
 
 end QmiModel.RpcClass
